@@ -101,3 +101,20 @@ V('C01', 'if-not-exists-before-extending', 'edb/edgeql/codegen.py', 'edb.edgeql.
         if after_name:
             after_name()
 ''', 'C01.R11', 'extending-before-if-not-exists')
+
+# round 4
+CG = 'edb/edgeql/codegen.py'
+V('C01', 'revert-fix-savepoint-name-raw', CG,
+  'edb.edgeql.codegen.EdgeQLSourceGenerator.visit_DeclareSavepoint',
+  'self.write(ident_to_str(node.name))', 'self.write(node.name)', 'C01.R12',
+  'visit_DeclareSavepoint:name-quoted')
+V('C01', 'savepoint-name-through-keyword-writer', CG,
+  'edb.edgeql.codegen.EdgeQLSourceGenerator.visit_ReleaseSavepoint',
+  "        self._write_keywords('RELEASE SAVEPOINT ')\n        self.write(ident_to_str(node.name))\n",
+  "        self._write_keywords('RELEASE SAVEPOINT', ident_to_str(node.name))\n",
+  'C01.R5', 'keyword-writer-gets-data')
+V('C01', 'revert-fix-reset-schema-formats-object', CG,
+  'edb.edgeql.codegen.EdgeQLSourceGenerator.visit_ResetSchema',
+  "        self._write_keywords('RESET SCHEMA TO ')\n        self.visit(node.target)\n",
+  "        self._write_keywords(f'RESET SCHEMA TO {node.target}')\n",
+  'C01.R5', 'keyword-writer-gets-data')
